@@ -1,5 +1,8 @@
 import EmsModel.Core.TimeUnits
 import EmsModel.Core.Proto
+import EmsModel.Core.TimeUnitsSrc
+import EmsModel.Gen.TimeUnitsSrc
+import EmsModel.Core.SaveSession
 /-! Line-protocol driver for C17.
 
 Strings travel verbatim (spaces included) as the tail of the line; bytes outside printable ASCII and
@@ -22,6 +25,20 @@ the characters `% ; |` are written `%XX`.
 `savetime …`     same line → variable whose units `to_netcdf` rewrites | `-` | `ERR` (save raises)
 `propcheck offset <m>`         → `1` iff parseOffset (formatOffset m) = some m
 `propcheck fmt <calendar> <units…>` → `1` iff output (if any) has the EMS form and the same instant
+
+Cross-check of the source translator (`harness/trans_timeunits.py` → `Gen/TimeUnitsSrc.lean`): the *generated* terms
+evaluated by the interpreters of `Core/TimeUnitsSrc.lean`
+`srcfmt <calendar> <units…>`   → `run gregorian Gen.tuFormatProg` | `ERR`          (real `format_time_units_for_ems`)
+`srcfill <mem> <enc> <attr>`   → encoding slot after `fillRun Gen.tuFillProg` | `ERR` (real `disable_default_fill_value`)
+`srctimecoord …` (as `timecoord`) → `tcRun` of the generated search of that convention: name | `-` | `ERR`
+`srcfixattrs <units|!> ; <calendar|!>` → `fixRun (run gregorian Gen.tuFormatProg) Gen.tuFixSteps` | `ERR`
+`srcspec <m|p|s> <0|1> <width> <n>` → `fmtInt` (Python `format(n, '[+| ][0][width]d')`)
+`srcstrf <directive> <y> <mo> <d> <h> <mi> <s>` → `strftime1` (Python `datetime(...).strftime('%<directive>')`) | `ERR`
+
+Round 6 (`Core/SaveSession.lean`): the `_FillValue` attributes of every file of a history of saves, oldest call first
+`savehist <call> ; <call> ; …` with `<call>` = `<encoding=> <variables>`,
+    `<encoding=>` = `-` | `name:disk:slot,…`, `<variables>` = `-` | `name:rank:mem:disk:enc:attr,…`
+    → per call `name=0|1,…` (`-` for no variable) | `ERR` (the call raises), joined by ` ; `     (`runSession`)
 -/
 open Ems Ems.Proto Ems.TimeUnits
 
@@ -96,6 +113,34 @@ def emsForm (p : Str) (out : Str) : Bool :=
       && [y1, y2, y3, y4, m1, m2, d1, d2, h1, h2, n1, n2, s1, s2, o1, o2, o3, o4].all isDig
       && (sg == '+' || sg == '-')
   | _ => false
+
+/-- `name:rank:mem:disk:enc:attr,…` of `savehist` -/
+def parseSVars? (s : String) : Option (List Ems.SaveSession.SVar) :=
+  if s = "-" then some [] else
+  allSome ((s.splitOn ",").map fun item =>
+    match item.splitOn ":" with
+    | [name, rank, mem, disk, enc, attr] =>
+      match parseNat? rank, parseKind? mem, parseKind? disk, parseSlot? enc with
+      | some rank, some mem, some disk, some enc =>
+        if name ≠ "" ∧ (attr = "0" ∨ attr = "1") then some ⟨name, rank, ⟨mem, disk, enc, attr = "1"⟩⟩ else none
+      | _, _, _, _ => none
+    | _ => none)
+
+/-- `name:disk:slot,…` of `savehist` -/
+def parseEncArgs? (s : String) : Option (List Ems.SaveSession.EncArg) :=
+  if s = "-" then some [] else
+  allSome ((s.splitOn ",").map fun item =>
+    match item.splitOn ":" with
+    | [name, disk, slot] =>
+      match parseKind? disk, parseSlot? slot with
+      | some disk, some slot => if name ≠ "" then some ⟨name, disk, slot⟩ else none
+      | _, _ => none
+    | _ => none)
+
+def showFile : Option Ems.SaveSession.File → String
+  | none => "ERR"
+  | some [] => "-"
+  | some f => ",".intercalate (f.map fun (n, b) => s!"{n}={bit b}")
 
 def step (line : String) : String :=
   let (op, rest) := cut line.toList
@@ -190,6 +235,74 @@ def step (line : String) : String :=
         | some (some n) => n
         | some none => "ERR"
     | _, _ => "BAD"
+  | "srcfmt" =>
+    let (cal, u) := cut rest
+    match unesc cal, unesc u with
+    | some cal, some u => showOpt (Ems.TimeUnitsSrc.run gregorian Ems.Gen.tuFormatProg cal u)
+    | _, _ => "BAD"
+  | "srcfill" =>
+    match words (String.ofList rest) with
+    | [mem, enc, attr] =>
+      match parseKind? mem, parseSlot? enc with
+      | some mem, some enc =>
+        if attr = "0" ∨ attr = "1" then
+          match Ems.TimeUnitsSrc.fillRun Ems.Gen.tuFillProg ⟨mem, mem, enc, attr = "1"⟩ with
+          | some v => showSlot v.enc
+          | none => "ERR"
+        else "BAD"
+      | _, _ => "BAD"
+    | _ => "BAD"
+  | "srctimecoord" =>
+    let (conv, r1) := cut rest
+    let (_dims, vs) := cut r1
+    let prog : Option Ems.TimeUnitsSrc.TcProg := match String.ofList conv with
+      | "generic" => some Ems.Gen.tuTimeCoordGeneric | "shoc_standard" => some Ems.Gen.tuTimeCoordShocStandard
+      | "shoc_simple" => some Ems.Gen.tuTimeCoordShocSimple | _ => none
+    match prog, parseTVars? vs with
+    | some prog, some vs =>
+      match Ems.TimeUnitsSrc.tcRun prog vs with
+      | some (some n) => n
+      | some none => "-"
+      | none => "ERR"
+    | _, _ => "BAD"
+  | "srcfixattrs" =>
+    match (String.ofList rest).splitOn " ; " with
+    | [u, cal] =>
+      let dec (x : String) : Option (Option Str) := if x = "!" then some none else (unesc x.toList).map some
+      match dec u, dec cal with
+      | some u, some cal =>
+        showOpt (Ems.TimeUnitsSrc.fixRun (Ems.TimeUnitsSrc.run gregorian Ems.Gen.tuFormatProg) Ems.Gen.tuFixSteps u cal)
+      | _, _ => "BAD"
+    | _ => "BAD"
+  | "srcspec" =>
+    match words (String.ofList rest) with
+    | [sg, z, w, n] =>
+      let sign : Option Ems.TimeUnitsSrc.SignFlag := match sg with
+        | "m" => some .minusOnly | "p" => some .plus | "s" => some .space | _ => none
+      match sign, parseNat? w, parseInt? n with
+      | some sign, some w, some n =>
+        if z = "0" ∨ z = "1" then esc (Ems.TimeUnitsSrc.fmtInt ⟨sign, z = "1", w⟩ n) else "BAD"
+      | _, _, _ => "BAD"
+    | _ => "BAD"
+  | "srcstrf" =>
+    match words (String.ofList rest) with
+    | [d, y, mo, dd, h, mi, sec] =>
+      match d.toList, parseInt? y, parseNat? mo, parseNat? dd, parseNat? h, parseNat? mi, parseNat? sec with
+      | [c], some y, some mo, some dd, some h, some mi, some sec =>
+        showOpt (Ems.TimeUnitsSrc.strftime1 ⟨y, mo, dd, h, mi, sec⟩ c)
+      | _, _, _, _, _, _, _ => "BAD"
+    | _ => "BAD"
+  | "savehist" =>
+    let calls := allSome (((String.ofList rest).splitOn " ; ").map fun c =>
+      match words c with
+      | [a, v] =>
+        match parseEncArgs? a, parseSVars? v with
+        | some a, some v => some (⟨a, v⟩ : Ems.SaveSession.SaveCall)
+        | _, _ => none
+      | _ => none)
+    match calls with
+    | some calls => " ; ".intercalate ((Ems.SaveSession.runSession calls).map showFile)
+    | none => "BAD"
   | "propcheck" =>
     let (what, r1) := cut rest
     match String.ofList what with
